@@ -81,8 +81,9 @@ Apply(e) ==
          /\ UNCHANGED <<cfgof, created, registered, node, reported, started, origin>>
     [] e.ev = "running" -> UNCHANGED <<nvars, origin>>
 
-(* known deviation (findings.d/C10.json): Server._processCfg calls startModule of every module *)
-(* that could be created BEFORE it looks at the collected errors                               *)
+(* named deviation (findings.d/C10.json, fixed in /repo by d0a74b7; a regression is reported    *)
+(* under this name): Server._processCfg calls startModule of every module that could be        *)
+(* created BEFORE it looks at the collected errors                                             *)
 DevStartBeforeAbort(e) == e.ev = "refuse" /\ e.started # <<>> /\ Viol(e) = ""
 
 TInit == /\ t \in 1 .. NT /\ l = 1 /\ origin = <<>>
